@@ -1,4 +1,5 @@
 import gfapy
+from copy import deepcopy
 
 class SameID:
 
@@ -19,9 +20,10 @@ class SameID:
           "New tag definition: {}\n".format(cur)+
           "Group ID: {}".format(self.name))
       if cur is None:
-        # (the value as it is stored, parsed or not)
+        # (the value as it is stored, parsed or not; a copy: the replaced
+        # line keeps its own)
         imported_tags.append((tag, previous.get_datatype(tag),
-                              previous._data[tag]))
+                              deepcopy(previous._data[tag])))
     self._gfa = previous.gfa
     try:
       self._initialize_references()
